@@ -51,6 +51,31 @@ def _make_stream(res):
         return sim_net.SimStream(content, caps, res.get("fault_after_bytes")), []
     if kind == "raw":
         return sim_net.RawStream(content, caps), []
+    if kind == "bare":
+        # a file-like object that offers nothing but read / close / the context-manager protocol (no fileno, no tell):
+        # whatever the server makes of it, it must close it
+        class BareStream:
+            def __init__(self, data):
+                self._inner = io.BytesIO(data)
+                self._closed = False
+
+            def read(self, size=-1):
+                return self._inner.read(size)
+
+            def close(self):
+                if not self._closed:
+                    self._closed = True
+                    tr = sim_net.current_transfer()
+                    if tr is not None:
+                        tr.log.append(["closeFile"])
+
+            def __enter__(self):
+                return self
+
+            def __exit__(self, *a):
+                self.close()
+                return False
+        return BareStream(content), []
     if kind == "file":
         fd, path = tempfile.mkstemp(prefix="vverif-tftp-")
         os.write(fd, b"\xee" * pre + content)
